@@ -510,6 +510,24 @@ theorem stub_init_text_accepted (dflt apd : Bool) (c : ClassInfo) (anns : String
   rw [c16_lexPy_render _ (c16_lexOk_initToks anns _ h)]
   exact stub_init_text_parses dflt apd c anns h
 
+/-- the TEXT of the three generated helper methods, lexed and parsed -/
+theorem stub_helper_text_accepted (dflt apd : Bool) (c : ClassInfo) (anns : String → Ann) (hk : Helper)
+    (h : textDomain anns (stubInit dflt apd c).params = true) :
+    (lexPy (renderText (helperToks anns hk (stubInit dflt apd c)))).bind parseDef =
+      some ⟨helperName hk, helperLeadInfos hk ++
+        ((stubInit dflt apd c).params.map (helperInfo hk) ++ kwInfos (stubInit dflt apd c).kw)⟩ := by
+  rw [c16_lexPy_render _ (c16_lexOk_helperToks anns hk _ h)]
+  exact stub_helper_text_parses dflt apd c anns hk h
+
+/-- the TEXT of every re-rendered method / function header: print a legal signature, lex, parse — the same
+    names, kinds and default flags -/
+theorem stub_method_text_accepted (f : String) (ps : List RParam) (ret : Option Ann) (hf : identOk f = true)
+    (hne : ps ≠ []) (hv : validSig ps = true) (hok : ∀ p ∈ ps, rparamOk p = true ∧ noVarDefault p = true)
+    (hret : optWf ret = true) :
+    (lexPy (renderText (methodToks f ps ret))).bind parseDef = some ⟨f, ps.map RParam.info⟩ := by
+  rw [c16_lexPy_render _ (c16_lexOk_methodToks f ps ret hf (fun p hp => (hok p hp).1) hret)]
+  exact stub_method_text_roundtrip f ps ret hf hne hv hok hret
+
 /-! ### a stub generated under another `additional_properties_default` than the runtime's (`apd ≠ dflt`) -/
 
 /-- when some class of the MRO declares `_additional_properties`, the `**` clause does not depend on the default the
